@@ -266,3 +266,58 @@ func memberMain(args []string) {
 	outf.Close()
 	fmt.Printf("{\"behaviours\":%d}\n", nb)
 }
+
+// memberStressMain: drive member-stress <seconds>
+// One real gossip server; valid Discover and Announce requests from many keys at the same time, over the real
+// transport. Nothing a client sends may take the process down: the runner reads this process's fate.
+func memberStressMain(args []string) {
+	secs := 2
+	if len(args) > 0 {
+		fmt.Sscanf(args[0], "%d", &secs)
+	}
+	b := &mBehaviour{ID: "stress", Nodes: []string{"g"}, Genesis: "g"}
+	w, err := newMWorld(b, json.NewEncoder(os.Stderr))
+	if err != nil {
+		fatal("world: %v", err)
+	}
+	g := w.nodes["g"]
+	deadline := time.Now().Add(time.Duration(secs) * time.Second)
+	done := make(chan [2]int, 8)
+	for i := 0; i < 8; i++ {
+		go func(i int) {
+			n := [2]int{}
+			conn, err := grpc.Dial(g.url, grpc.WithTransportCredentials(insecure.NewCredentials()))
+			if err != nil {
+				done <- n
+				return
+			}
+			defer conn.Close()
+			cl := pb.NewGossipAPIClient(conn)
+			keys := []*wallet.Wallet{newWallet(), newWallet(), newWallet()}
+			for k := 0; time.Now().Before(deadline); k++ {
+				wl := keys[k%len(keys)]
+				cd := w.record(wl, wl.Address(), fmt.Sprintf("127.0.0.1:%d", 20000+i*100+k%50))
+				ctx, cancel := context.WithTimeout(context.Background(), 2*time.Second)
+				if (k+i)%2 == 0 {
+					if _, err := cl.Discover(ctx, cd); err == nil {
+						n[0]++
+					}
+				} else {
+					if _, err := cl.Announce(ctx, cd); err == nil {
+						n[1]++
+					}
+				}
+				cancel()
+			}
+			done <- n
+		}(i)
+	}
+	tot := [2]int{}
+	for i := 0; i < 8; i++ {
+		n := <-done
+		tot[0] += n[0]
+		tot[1] += n[1]
+	}
+	fmt.Printf("{\"discover\":%d,\"announce\":%d,\"peers\":%d}\n", tot[0], tot[1], len(g.g.PeerTable()))
+	os.Exit(0)
+}
